@@ -166,6 +166,31 @@ def data_item_values_sweep():
                 as_item, as_plain = outcome(item), outcome(f.__type__(item.get()))
                 if as_item != as_plain and len(diffs) < 5:
                     diffs.append({"into": d.__name__, "value": f"{f.__name__}({raw!r})"[:80], "as_data_item": as_item[:60], "as_plain_variable": as_plain[:60]})
+    # the same for a value that comes wrapped in a Dynamic (a plain Dynamic, or a data item that is one): what counts is the variable it holds
+    for d in dyn:
+        for typ, raws in samples.items():
+            if typ not in d.__allowedtypes__:
+                continue
+            for raw in raws + ([raws[-1] * 4] if typ in (var.String, var.Binary) else []):
+                wrappers = [lambda r=raw, t=typ: var.Dynamic([t], r)] + [lambda r=raw, t=typ, d2=d2: d2(t(r)) for d2 in dyn[:6] if typ in d2.__allowedtypes__ and getattr(d2, "__count__", -1) in (-1, None)]
+                for mk in wrappers:
+                    try:
+                        wrapped = mk()
+                    except Exception:  # noqa: BLE001
+                        continue
+                    tried += 1
+
+                    def outcome2(value):
+                        try:
+                            return d(value).encode().hex()
+                        except (ValueError, IndexError, UnicodeError):
+                            return "rejected"
+                        except Exception as exc:  # noqa: BLE001
+                            return "raised " + type(exc).__name__
+
+                    as_wrapped, as_plain = outcome2(wrapped), outcome2(typ(raw))
+                    if as_wrapped != as_plain and len(diffs) < 5:
+                        diffs.append({"into": d.__name__, "value": f"{type(wrapped).__name__} holding {typ.__name__}({raw!r})"[:90], "as_wrapped": as_wrapped[:60], "as_plain_variable": as_plain[:60]})
     return tried, diffs
 
 
